@@ -257,6 +257,9 @@ SPEC_FILTER = "(not use_style) or (cvr_sample[i].has_contest(self.contest.id) an
 
 
 def r4(chk):
+    aud.keeps_no_state(chk, "C06.R4", REL, ["Assertion.overstatement_assorter", "Assertion.make_overstatement", "Assorter.overstatement",
+                                            "Assertion.mvrs_to_data"],
+                       "a datum is B of the records handed in at the margin and bound of the moment")
     fn = chk.fn(REL, "Assertion.mvrs_to_data", canonical=True)
     where = W("Assertion.mvrs_to_data")
     tx = Tx()
@@ -273,7 +276,10 @@ def r4(chk):
     i = norm(tgt)
     t2 = tx.child(dict(tx.env))
     cond = c_and(*[t2.cond(x) for x in ifs]) if ifs else True
-    want_tx = tx.child({**tx.env})
+    # (the specification speaks about the arguments as handed in: a parameter re-bound on the way -- `use_all = use_all or ...` --
+    # is part of the code's condition, not of the specification's)
+    params_ = {a.arg for a in fn.args.posonlyargs + fn.args.args + fn.args.kwonlyargs}
+    want_tx = tx.child({k: v for k, v in tx.env.items() if k not in params_})
     want = want_tx.cond(ast.parse(SPEC_FILTER.replace("[i]", f"[{i}]").replace("use_style", "self.contest.use_style"), mode="eval").body)
     ok, n, cex = aud.cond_equiv(cond, want)
     chk.ob("C06.R4", where, "style-threshold-filter", ok,
